@@ -27,6 +27,7 @@ def guardName : Guard → String
   | .ownerOnly => "ownerOnly" | .lazyListHead => "lazyListHead" | .headForced => "headForced"
   | .noConstLookup => "noConstLookup" | .emptyChecked => "emptyChecked" | .noConstCaller => "noConstCaller"
   | .listConstNoAlloc => "listConstNoAlloc" | .readOnlyUse => "readOnlyUse"
+  | .mappingPhaseOnly => "mappingPhaseOnly"
 
 def effectName : Effect → String
   | .none => "none" | .privateWrite => "privateWrite" | .syncWrite => "syncWrite" | .sharedWrite => "sharedWrite"
@@ -34,7 +35,7 @@ def effectName : Effect → String
 def kindOfName : String → Option Kind
   | "mutableMember" => some .mutableMember | "constCast" => some .constCast | "constPathCall" => some .constPathCall
   | "localStatic" => some .localStatic | "lazyContainer" => some .lazyContainer
-  | "transformTouch" => some .transformTouch | "globalVar" => some .globalVar | _ => none
+  | "transformTouch" => some .transformTouch | "guardedWrite" => some .guardedWrite | "globalVar" => some .globalVar | _ => none
 
 def demo : Machine (List Nat) Nat Nat where
   step := fun s p => (s, p + 1, [s.getD p 0 + p])
